@@ -249,6 +249,24 @@ def check_after_applications(ctx):
                 probe()
             except Exception:  # noqa
                 pass
+    # ... and every method's frame is decoded in a process that raises
+    # warnings as errors, and with debug logging on (a deprecated method
+    # must not make the decoder rewrite its own catalogue)
+    for env in (lib.warnings_as_errors, lib.debug_logging):
+        with env():
+            for m in spec_table.METHODS:
+                for vec in (corpus.nondefault_vector(m), None):
+                    try:
+                        data, _f = refcodec.enc_method_frame(
+                            m, vec if vec is not None else
+                            corpus.default_vector(m), 1)
+                        p.frame.unmarshal(data)
+                    except Exception:  # noqa
+                        pass
+    fact(ctx, 'INDEX_MAPPING', 'entries that are not classes after the '
+         'applications\' history', [],
+         [hex(k) for k, v in p.commands.INDEX_MAPPING.items()
+          if not isinstance(v, type)])
     fact(ctx, 'INDEX_MAPPING', 'key set after applications defined '
          'subclasses and unknown methods were looked up',
          sorted(spec_table.BY_INDEX), sorted(p.commands.INDEX_MAPPING))
